@@ -66,6 +66,13 @@ void fc_tape(void* buf, size_t count, void* state)
 		memset(buf, 0, count);
 	else if (c->tape_mode == 2)
 		memset(buf, 0xFF, count);
+	else if (c->tape_mode == 3 && !c->craft_used && c->craft)
+	{
+		/* a particular, legal generator output chosen by the descriptor */
+		memset(buf, 0, count);
+		memcpy(buf, c->craft, count < c->craft_len ? count : c->craft_len);
+		c->craft_used = 1;
+	}
 	else
 		sk_bytes(&c->tape, buf, count);
 }
